@@ -6,6 +6,8 @@ import types
 from symx.stubs import parsim
 
 BACKENDS = ["stub_cb", "stub_legacy", "threading", "multiprocessing", "loky"]
+# "stub_noabort": a callback-flavour backend that keeps ParallelBackendBase's default abort_everything (a no-op):
+# batches of an aborted call keep completing, possibly while the next call runs (stale callbacks)
 
 
 class TaskError(Exception):
@@ -109,7 +111,7 @@ def make_backend(kind, sim, n_workers):
             return self.res.get(timeout)
 
     class StubBackend(ParallelBackendBase):
-        supports_retrieve_callback = (kind == "stub_cb")
+        supports_retrieve_callback = (kind in ("stub_cb", "stub_noabort"))
         supports_sharedmem = True
         uses_threads = True
 
@@ -136,7 +138,7 @@ def make_backend(kind, sim, n_workers):
                     job.res.exc = out[1]
                 job.res.done = True
                 if callback is not None:
-                    if kind == "stub_cb":
+                    if kind in ("stub_cb", "stub_noabort"):
                         callback(out)
                     else:
                         callback()
@@ -153,7 +155,8 @@ def make_backend(kind, sim, n_workers):
 
         def abort_everything(self, ensure_ready=True):
             sim.sp("abort")
-            sim.drop_pending()
+            if kind != "stub_noabort":
+                sim.drop_pending()
 
         def batch_completed(self, batch_size, duration):
             sim.sp("batch_completed")
